@@ -125,10 +125,21 @@ func (m recMig) DropTable(values ...interface{}) error {
 }
 func (m recMig) GetTypeAliases(name string) []string { return m.st.aliases[name] }
 
-func open(st *recState) (*gorm.DB, *recdrv.Recorder) {
+func open(st *recState, flags ...string) (*gorm.DB, *recdrv.Recorder) {
 	sqlDB, rec := recdrv.Open(":memory:")
 	sqlDB.SetMaxOpenConns(1)
-	db, err := gorm.Open(recDialector{Dialector: sqlite.Dialector{Conn: sqlDB}, st: st}, &gorm.Config{Logger: logger.Discard})
+	cfg := &gorm.Config{Logger: logger.Discard}
+	for _, f := range flags {
+		switch f {
+		case "disablefk":
+			cfg.DisableForeignKeyConstraintWhenMigrating = true
+		case "ignorerel":
+			cfg.IgnoreRelationshipsWhenMigrating = true
+		case "both":
+			cfg.DisableForeignKeyConstraintWhenMigrating, cfg.IgnoreRelationshipsWhenMigrating = true, true
+		}
+	}
+	db, err := gorm.Open(recDialector{Dialector: sqlite.Dialector{Conn: sqlDB}, st: st}, cfg)
 	lib.Must(err)
 	rec.Reset()
 	return db, rec
@@ -366,12 +377,14 @@ var pairs = []pair{
 	{"P1", &P1{}, &P1v2{}, nil}, {"P2", &P2{}, &P2v2{}, nil}, {"P3", &P3{}, &P3v2{}, nil},
 	{"P4", &P4{}, &P4v2{}, nil}, {"P5", &P5{}, &P5v2{}, nil}, {"P6", &P6{}, &P6v2{}, []interface{}{&Owner{}}},
 	{"P7", &P7{}, &P7v2{}, nil},
+	{"P8", &P8{}, &P8v2{}, []interface{}{&P8Tag{}}},
 }
 
 type RoundIn struct {
 	Pair string `json:"pair"`
 	Rows int    `json:"rows"`
 	Seed uint64 `json:"seed"`
+	Flags string `json:"flags,omitempty"` // "" | disablefk | ignorerel | both (migrator configuration)
 }
 type ColObs struct {
 	Field FieldIn `json:"field"`
@@ -470,10 +483,14 @@ func migrateObserved(db *gorm.DB, rec *recdrv.Recorder, st *recState, model inte
 	}
 	// constraints in the order AutoMigrate visits them: relations (map order: sorted here, at most
 	// one per model in this family), then checks; then indexes
+	// (foreign keys only when neither DisableForeignKeyConstraintWhenMigrating nor
+	// IgnoreRelationshipsWhenMigrating is set: the documented meaning of the two switches)
 	var fks []string
-	for _, rel := range sch.Relationships.Relations {
-		if c := rel.ParseConstraint(); c != nil && c.Schema == sch {
-			fks = append(fks, c.Name)
+	if !db.DisableForeignKeyConstraintWhenMigrating && !db.IgnoreRelationshipsWhenMigrating {
+		for _, rel := range sch.Relationships.Relations {
+			if c := rel.ParseConstraint(); c != nil && c.Schema == sch {
+				fks = append(fks, c.Name)
+			}
 		}
 	}
 	sort.Strings(fks)
@@ -503,7 +520,14 @@ func migrateObserved(db *gorm.DB, rec *recdrv.Recorder, st *recState, model inte
 	if err := db.AutoMigrate(model); err != nil {
 		*errs = append(*errs, "automigrate "+o.Table+": "+err.Error())
 	}
-	o.API = append([]string{}, st.log...)
+	// calls on the model's own table (a many2many model also migrates its join tables; those
+	// count through the driver-level DDL below)
+	o.API = []string{}
+	for _, l := range st.log {
+		if f := strings.Fields(l); len(f) > 1 && f[1] == o.Table {
+			o.API = append(o.API, l)
+		}
+	}
 	o.DDL = ddlOf(rec)
 	if !has {
 		o.Exists = nil
@@ -545,7 +569,7 @@ func runRound(in RoundIn) RoundObs {
 		}
 	}
 	st := &recState{delegate: true, aliases: map[string][]string{}}
-	db, rec := open(st)
+	db, rec := open(st, in.Flags)
 	defer func() { s, _ := db.DB(); s.Close() }()
 	for _, d := range p.Deps {
 		if err := db.AutoMigrate(d); err != nil {
@@ -589,6 +613,10 @@ func runRound(in RoundIn) RoundObs {
 			}
 		}
 	}
+	if in.Pair == "P8" && in.Flags != "ignorerel" && in.Flags != "both" {
+		// (IgnoreRelationshipsWhenMigrating: the join tables are not migrated, by design)
+		linkTest(db, &o)
+	}
 	rec.Reset()
 	st.log = nil
 	if err := db.AutoMigrate(p.V2); err != nil {
@@ -596,6 +624,46 @@ func runRound(in RoundIn) RoundObs {
 	}
 	o.Again2 = append(ddlOf(rec), st.log...)
 	return o
+}
+
+// linkTest: the migrated many2many tables accept and return links: two owners sharing a target.
+func linkTest(db *gorm.DB, o *RoundObs) {
+	tags := []P8Tag{{Code: "db", Slug: "s-db"}, {Code: "go", Slug: "s-go"}}
+	if err := db.Create(&tags).Error; err != nil {
+		o.Errs = append(o.Errs, "tags: "+err.Error())
+		return
+	}
+	ann := P8v2{Name: "ann-link", Tags: []P8Tag{tags[0], tags[1]}, Subs: []P8Tag{tags[1]}}
+	bob := P8v2{Name: "bob-link", Tags: []P8Tag{tags[1]}, Subs: []P8Tag{tags[1], tags[0]}}
+	for _, p := range []*P8v2{&ann, &bob} {
+		if err := db.Create(p).Error; err != nil {
+			o.Errs = append(o.Errs, "link create: "+err.Error())
+		}
+	}
+	want := map[string]string{"ann-link": "db,go|s-go", "bob-link": "go|s-db,s-go"}
+	var back []P8v2
+	if err := db.Preload("Tags").Preload("Subs").Where("name LIKE ?", "%-link").Find(&back).Error; err != nil {
+		o.Errs = append(o.Errs, "link read: "+err.Error())
+	}
+	for _, p := range back {
+		var a, b []string
+		for _, t := range p.Tags {
+			a = append(a, t.Code)
+		}
+		for _, t := range p.Subs {
+			b = append(b, t.Slug)
+		}
+		sort.Strings(a)
+		sort.Strings(b)
+		got := strings.Join(a, ",") + "|" + strings.Join(b, ",")
+		if got != want[p.Name] {
+			o.Errs = append(o.Errs, fmt.Sprintf("links of %s: stored %s, loaded %s", p.Name, want[p.Name], got))
+		}
+		delete(want, p.Name)
+	}
+	for n := range want {
+		o.Errs = append(o.Errs, "link owner not read back: "+n)
+	}
 }
 
 // zeroTimes clears time fields (zone/monotonic representation differs after a read)
@@ -764,7 +832,7 @@ func main() {
 			lib.ListOf(o.After, func(r []string) string { return lib.ListOf(r, lib.Str) }),
 			lib.Bool(o.NewOK), lib.Z(int64(len(o.Again2))), lib.Z(int64(len(o.Errs))))
 		out.Add(lib.Case{Term: term, JSON: map[string]interface{}{"input": map[string]interface{}{"kind": "round", "round": in}, "observed": o},
-			Kind: kind, Shape: fmt.Sprintf("round|%s|rows%d", in.Pair, in.Rows), Nontriv: in.Rows > 0})
+			Kind: kind, Shape: fmt.Sprintf("round|%s|rows%d|%s", in.Pair, in.Rows, in.Flags), Nontriv: in.Rows > 0})
 		out.Count("case", "round")
 		out.Count("round_pair", in.Pair)
 		out.Count("round_ddl_on_remigrate", fmt.Sprint(len(o.Again.DDL)))
@@ -832,6 +900,12 @@ func main() {
 			addRound("main", RoundIn{Pair: p.Name, Rows: n, Seed: r.U64()})
 		}
 	}
+	// the migrator's configuration switches, one at a time and together, on the models with relations
+	for _, pn := range []string{"P6", "P8"} {
+		for _, fl := range []string{"disablefk", "ignorerel", "both"} {
+			addRound("main", RoundIn{Pair: pn, Rows: 2, Seed: r.U64(), Flags: fl})
+		}
+	}
 	// reorder cases
 	names := []string{"RA", "RB", "RC", "RD", "Owner", "P6", "P1"}
 	nre := 20
@@ -860,6 +934,6 @@ func main() {
 		}
 		addDecide(kind, fi, ri)
 	}
-	out.Extra["rule"] = "cases = (a) decide: generated schema.Field (data type from a 24-word vocabulary with sizes/precisions/case/space variants, primary key, size, precision, not null, default value and DefaultValueInterface, time/bool/other, comment, unique, IgnoreMigration) x generated reported column type (type name related or unrelated, aliases, length/precision/nullable/default/comment/unique each with an ok flag) fed to the real Migrator.MigrateColumn with a recording migrator; (b) round: 7 hand-written model pairs (v1, v2 = v1 + fields/indexes/unique index/check constraints; sizes, not null, literal/bool/null defaults, times, bytes, embedded prefix, renamed column, json serializer, unique, check, composite key and index, foreign key) on real SQLite through the recording driver, with 0 and 3 rows; (c) reorder: ReorderModels on random subsets of 7 models with chain/diamond foreign keys. distinct = distinct input shapes; non-trivial = decision is alter or a unique change / rows present / more than one model"
+	out.Extra["rule"] = "cases = (a) decide: generated schema.Field (data type from a 24-word vocabulary with sizes/precisions/case/space variants, primary key, size, precision, not null, default value and DefaultValueInterface, time/bool/other, comment, unique, IgnoreMigration) x generated reported column type (type name related or unrelated, aliases, length/precision/nullable/default/comment/unique each with an ok flag) fed to the real Migrator.MigrateColumn with a recording migrator; (b) round: 8 hand-written model pairs (incl. mixed-case column: tags and many2many over unique non-primary references with a link test), the relation pairs also under DisableForeignKeyConstraintWhenMigrating / IgnoreRelationshipsWhenMigrating / both (v1, v2 = v1 + fields/indexes/unique index/check constraints; sizes, not null, literal/bool/null defaults, times, bytes, embedded prefix, renamed column, json serializer, unique, check, composite key and index, foreign key) on real SQLite through the recording driver, with 0 and 3 rows; (c) reorder: ReorderModels on random subsets of 7 models with chain/diamond foreign keys. distinct = distinct input shapes; non-trivial = decision is alter or a unique change / rows present / more than one model"
 	lib.Must(out.Flush())
 }
